@@ -506,6 +506,10 @@ func checkC04(ctx *pbt.Ctx, c c04Case) error {
 	if err != nil {
 		return err
 	}
+	if out.Hung && !out.Crashed {
+		ctx.Label("no-result-within-bound-twice(C08)")
+		return nil // termination is C08's statement; this property cannot judge a run without a result
+	}
 	if out.Crashed || out.Hung {
 		return fmt.Errorf("the statement sequence crashed=%v hung=%v the process: %s\n statements: %v", out.Crashed, out.Hung, lastLines(out.Stderr, 10), stmtTexts(c))
 	}
